@@ -4,6 +4,7 @@ import (
 	"bytes"
 	"encoding/json"
 	"fmt"
+	"sync"
 	"testing"
 
 	"github.com/mdzio/go-mqtt/message"
@@ -466,4 +467,73 @@ func TestC03Counter(t *testing.T) {
 	}
 	rec.Count(int64(total), 0, "auto-id-encodes")
 	rec.CaseRaw([]byte(fmt.Sprintf(`{"history":"%d consecutive auto-id encodes","first_id":%d,"last_id":%d,"wraps":%d,"shard":%d}`, total, first, last, crossed, ev.GetEnv().Shard)), crossed >= 1, "counter-history")
+}
+
+// TestC03CounterConcurrent: the process-wide identifier counter is used by
+// every goroutine that encodes a request without an explicit identifier. Several
+// goroutines encode at once, long enough for the counter to pass 65535 many
+// times: every packet must still be Len() bytes long, carry a non-zero
+// identifier and decode.
+func TestC03CounterConcurrent(t *testing.T) {
+	rec := ev.New("C03", "counter-concurrent")
+	defer rec.Flush()
+	if ev.Replaying() {
+		t.Skip() // a schedule cannot be replayed; the failure text names what was seen
+	}
+	workers := 4
+	per := ev.Pick(2500000, 12000000) / ev.GetEnv().Shards
+	var mu sync.Mutex
+	var failure string
+	var wg sync.WaitGroup
+	for w := 0; w < workers; w++ {
+		wg.Add(1)
+		go func(w int) {
+			defer wg.Done()
+			buf := make([]byte, 64)
+			pm := message.NewPublishMessage()
+			for i := 0; i < per; i++ {
+				var m message.Message
+				var what string
+				switch (i + w) % 3 {
+				case 0:
+					pm = message.NewPublishMessage()
+					pm.SetQoS(1)
+					pm.SetTopic([]byte("a/b"))
+					pm.SetPayload([]byte("p"))
+					m, what = pm, "PUBLISH qos 1"
+				case 1:
+					sm := message.NewSubscribeMessage()
+					sm.AddTopic([]byte("a/b"), 1)
+					m, what = sm, "SUBSCRIBE"
+				default:
+					um := message.NewUnsubscribeMessage()
+					um.AddTopic([]byte("a/b"))
+					m, what = um, "UNSUBSCRIBE"
+				}
+				L := m.Len()
+				n, err := m.Encode(buf[:cap(buf)])
+				if err == nil && n == L && m.PacketID() != 0 {
+					if i%64 != 0 {
+						continue // full decode of every 64th packet only
+					}
+					if p, pn, perr := codec.Decode(buf[:n]); perr == nil && pn == n && p.PacketID == m.PacketID() {
+						continue
+					}
+				}
+				mu.Lock()
+				if failure == "" {
+					failure = fmt.Sprintf("with %d goroutines encoding at once: %s without explicit identifier: Encode returned (%d, %v), Len() = %d, automatic identifier %d, bytes %x", workers, what, n, err, L, m.PacketID(), buf[:n])
+				}
+				mu.Unlock()
+				return
+			}
+		}(w)
+	}
+	wg.Wait()
+	total := int64(workers) * int64(per)
+	rec.Count(total, total, "concurrent-auto-id-encodes")
+	rec.CaseRaw([]byte(fmt.Sprintf(`{"goroutines":%d,"encodes_each":%d,"counter_passes":%d,"shard":%d}`, workers, per, total/65535, ev.GetEnv().Shard)), true, "counter-concurrent")
+	if failure != "" {
+		failC03(t, rec, map[string]interface{}{"goroutines": workers, "encodes_each": per}, failure)
+	}
 }
